@@ -1,5 +1,7 @@
 # self-validation battery (see runner.py): mutants must be reported under the named rule, neutral rewrites must stay silent
 MUTANTS = [
+    {'name': 'revert: destinations rewritten on a copy of the segment', 'revert': 'rewrites destinations on its own copy', 'expect': '|FIELD-owner|'},
+    {'name': 'waiting destinations appended to the shared segment', 'file': 'partitura/score.py', 'old': '                        seg = copy(seg)\n                        seg.to = to\n', 'new': '                        seg.to.clear()\n                        seg.to.extend(to)\n                        seg = copy(seg)\n', 'expect': '|FIELD-owner|'},
     {'name': 'revert: own slur/tuplet lists', 'revert': 'its own slur/tuplet lists', 'expect': '|SHARE-copy|'},
     {'name': 'revert: de-duplicates notes in input order', 'revert': 'de-duplicates notes in input order', 'expect': '|SET-ORDER|'},
     {'name': 'voice table rows listed from a set of the notes', 'file': 'partitura/musicanalysis/voice_separation.py', 'old': '        out_array = []\n\n        for n in self.notes:\n            out_note = (', 'new': '        out_array = []\n        unique_notes = {n for n in self.notes}\n\n        for n in unique_notes:\n            out_note = (', 'expect': '|SET-ORDER|'},
